@@ -224,7 +224,12 @@ func (i *interpreter) newLazyStruct(T types.Type, path string, depth int, prot b
 	s := make(structure, st.NumFields())
 	for k := 0; k < st.NumFields(); k++ {
 		f := st.Field(k)
-		s[k] = &lazyPending{path: path + "." + f.Name(), depth: depth, key: specKey(T, f.Name()), prot: prot}
+		pend := &lazyPending{path: path + "." + f.Name(), depth: depth, key: specKey(T, f.Name()), prot: prot}
+		if typePositions[pend.key] {
+			// where the grammar wants a type, a parsed program has a type expression
+			pend.only = typeExprKinds
+		}
+		s[k] = pend
 	}
 	if prot {
 		for k := range s {
@@ -348,6 +353,11 @@ func (i *interpreter) materialise1(p *lazyPending, T types.Type) value {
 		if p.root {
 			nullable = false
 		}
+		// go/ast documents Field.Type as "or nil", but receivers, parameters and results
+		// of a parsed program always carry their type
+		if p.key == "go/ast.Field.Type" && (strings.Contains(p.path, ".Recv.List[") || strings.Contains(p.path, ".Params.List[") || strings.Contains(p.path, ".Results.List[")) {
+			nullable = false
+		}
 		cands := i.universeFor(T, p.depth)
 		if p.only != nil {
 			var keep []types.Type
@@ -378,6 +388,10 @@ func (i *interpreter) materialise1(p *lazyPending, T types.Type) value {
 		hi := path.ex.opts.bound("B", 2)
 		if p.depth > path.ex.opts.bound("K", 3) {
 			hi = lo
+		}
+		// a method has exactly one receiver field
+		if p.key == "go/ast.FieldList.List" && strings.HasSuffix(p.path, ".Recv.List") {
+			lo, hi = 1, 1
 		}
 		if hi < lo {
 			hi = lo
@@ -922,3 +936,14 @@ func init() {
 		return nil
 	})
 }
+
+// typePositions: go/ast fields that hold a type in every parsed program.
+var typePositions = map[string]bool{
+	"go/ast.Field.Type": true, "go/ast.ValueSpec.Type": true, "go/ast.TypeSpec.Type": true, "go/ast.ArrayType.Elt": true,
+	"go/ast.MapType.Key": true, "go/ast.MapType.Value": true, "go/ast.ChanType.Value": true, "go/ast.TypeAssertExpr.Type": true,
+	"go/ast.CompositeLit.Type": true,
+}
+
+// typeExprKinds: the node kinds a type expression can have at its root.
+var typeExprKinds = []string{"*go/ast.Ident", "*go/ast.StarExpr", "*go/ast.ParenExpr", "*go/ast.SelectorExpr", "*go/ast.ArrayType", "*go/ast.MapType",
+	"*go/ast.ChanType", "*go/ast.FuncType", "*go/ast.StructType", "*go/ast.InterfaceType", "*go/ast.IndexExpr", "*go/ast.IndexListExpr", "*go/ast.Ellipsis"}
